@@ -60,7 +60,8 @@ package scanner
 //@   requires scOK(l)
 //@   modifies l.pos, l.last
 //@   ensures scOK(l) && canBackup(l) && l.last == old(l.pos) && l.pos.Offset >= old(l.pos.Offset)
-//@   ensures result0 >= -1
+//@   ensures result0 >= -1 && (result0 == -1 <==> old(l.pos.Offset) >= len(l.input))
+//@   ensures result0 != -1 ==> l.pos.Offset > old(l.pos.Offset)   // progress: the scanning loops below terminate
 //@   ensures ghost(sent) == old(ghost(sent))
 
 //@ func (*Scanner).backup
@@ -157,6 +158,7 @@ package scanner
 //@   modifies all(l)
 //@   ensures stateOK(l)
 //@   loop 1: invariant scOK(l) && l.input == old(l.input) && ghost(sent) == old(ghost(sent))
+//@   loop 1: decreases len(l.input) - l.pos.Offset
 
 //@ func scanLong$1
 //@   prop C04
@@ -165,7 +167,9 @@ package scanner
 //@   modifies all(l)
 //@   ensures stateOK(l)
 //@   loop 1: invariant scOK(l) && l.input == old(l.input) && ghost(sent) == old(ghost(sent))
+//@   loop 1: decreases len(l.input) - l.pos.Offset
 //@   loop 2: invariant scOK(l) && l.input == old(l.input) && ghost(sent) == old(ghost(sent))
+//@   loop 2: decreases len(l.input) - l.pos.Offset
 
 //@ func scanShortString$1
 //@   prop C04
@@ -174,6 +178,7 @@ package scanner
 //@   modifies all(l)
 //@   ensures stateOK(l)
 //@   loop 1: invariant scOK(l) && l.input == old(l.input) && ghost(sent) == old(ghost(sent))
+//@   loop 1: decreases len(l.input) - l.pos.Offset
 
 //@ func scanNumberPrefix
 //@   prop C04
